@@ -106,7 +106,8 @@ def st_rect_case(draw):
 
     target = draw(st.sampled_from([1, -1])) * draw(st.sampled_from(LEVELS)) * scale
     t = gr.solve_shift(f, target, -1e4 * scale, 1e4 * scale)
-    return {"cone": spec, "r1": r1, "r2": {"lo": (l2 + t * v).tolist(), "hi": (u2 + t * v).tolist()}, "slack": s}
+    off = draw(gr.st_offset(m, big=False))
+    return {"cone": spec, "r1": gr.shift_region(r1, off), "r2": gr.shift_region({"lo": (l2 + t * v).tolist(), "hi": (u2 + t * v).tolist()}, off), "slack": s}
 
 
 @st.composite
@@ -130,7 +131,8 @@ def st_ell_case(draw):
 
     target = draw(st.sampled_from([1, -1])) * draw(st.sampled_from(LEVELS)) * scale
     t = gr.solve_shift(f, target, -1e3 * scale, 1e3 * scale)
-    return {"cone": spec, "r1": e1, "r2": dict(e2, c=(c2 + t * v).tolist()), "slack": s}
+    off = draw(gr.st_offset(m, big=False))
+    return {"cone": spec, "r1": gr.shift_region(e1, off), "r2": gr.shift_region(dict(e2, c=(c2 + t * v).tolist()), off), "slack": s}
 
 
 COMPONENTS = [
